@@ -17,10 +17,29 @@ def sh(cmd, cwd=None, timeout=7200):
 
 
 def main():
-  names = sys.argv[1:] or sorted(os.listdir(os.path.join(ROOT, 'seeded')))
-  rc, o = sh('git -C /repo status --short')
-  assert not o.strip(), f'/repo not clean: {o}'
+  args = sys.argv[1:]
+  # --scratch: apply each change in a scratch worktree of /repo HEAD and point
+  # the checks at it (VERIF_FLAX_TREE) instead of patching /repo itself, so
+  # that /repo stays free for other work while the regression suite runs
+  scratch = None
+  if '--scratch' in args:
+    args.remove('--scratch')
+    scratch = f'/tmp/wt/rerun_{os.getpid()}'
+    rc, o = sh(f'git -C /repo worktree add -q {scratch} HEAD')
+    assert rc == 0, o
+  names = args or sorted(os.listdir(os.path.join(ROOT, 'seeded')))
+  tree = scratch or '/repo'
+  rc, o = sh(f'git -C {tree} status --short')
+  assert not o.strip(), f'{tree} not clean: {o}'
   missed = []
+  try:
+    return run(names, tree, scratch, missed)
+  finally:
+    if scratch:
+      sh(f'git -C /repo worktree remove --force {scratch}')
+
+
+def run(names, tree, scratch, missed):
   for name in names:
     d = os.path.join(ROOT, 'seeded', name)
     mp = os.path.join(d, 'meta.json')
@@ -28,18 +47,32 @@ def main():
       continue
     meta = json.load(open(mp))
     props = meta.get('caught_by') or [meta['property']]
-    rc, o = sh(f'git -C /repo apply {os.path.join(d, "patch.diff")}')
-    assert rc == 0, (name, o)
+    rc, o = sh(f'git -C {tree} apply {os.path.join(d, "patch.diff")}')
+    if rc != 0:
+      # (written against an earlier HEAD: context may have moved)
+      rc, o = sh(f'git -C {tree} apply -3 {os.path.join(d, "patch.diff")}')
+    if rc != 0:
+      sh(f'git -C {tree} checkout -- .')
+      meta['final'] = [{'check': meta['property'], 'exit': None,
+                        'note': 'patch no longer applies to the current '
+                        'HEAD (the code it changes was repaired by a later '
+                        'fix: commit)'}]
+      json.dump(meta, open(mp, 'w'), indent=1)
+      print(name, 'STALE (patch does not apply to the current HEAD)',
+            flush=True)
+      continue
     res = []
     try:
       for p in props:
         t0 = time.time()
-        rc, o = sh(f'./check {p} --tier quick --no-evidence', cwd=ROOT)
+        pre = f'VERIF_FLAX_TREE={scratch} ' if scratch else ''
+        rc, o = sh(f'{pre}./check {p} --tier quick --no-evidence', cwd=ROOT)
         first = [l for l in o.splitlines() if l.startswith('  clause=')][:1]
         res.append({'check': p, 'exit': rc, 'wall_s': round(time.time() - t0),
                     'first': first[0][:300] if first else ''})
     finally:
-      sh('git -C /repo checkout -- .')
+      sh(f'git -C {tree} checkout -- .')
+      sh(f'git -C {tree} reset -q')
     meta['final'] = res
     json.dump(meta, open(mp, 'w'), indent=1)
     ok = any(r['exit'] == 1 for r in res)
